@@ -157,6 +157,37 @@ fn one_request_all_rolls() {
     std::mem::forget(c);
 }
 
+/// Stream sharing, light version (quick tier): with error rate 1 every request draws
+/// exactly one value and resolves at once; two requests through two CLONES of one seeded
+/// service must consume positions 0 and 1 of ONE stream (a clone that forks the generator
+/// would replay position 0), and a second service built from the same seed starts at
+/// position 0 again.
+#[kani::proof]
+#[kani::unwind(9)]
+#[kani::stub(std::time::Instant::now, tokio::model::std_instant_now)]
+#[kani::stub(catch_unwind, crate::verif_kani::env::catch_unwind_stub)]
+fn clones_share_one_seeded_stream() {
+    let seed: u64 = kani::any();
+    let mut script = svc::any_script();
+    script.never = false;
+    script.immediate = true;
+    let c1 = mk(1.0, 0.0, Duration::ZERO, Duration::ZERO, Some(seed), script);
+    let mut a = c1.clone();
+    let mut b = c1.clone();
+    let o1 = drive(&mut a, 1);
+    let o2 = drive(&mut b, 2);
+    assert!(o1.draws == 1 && o2.draws == 1 && o1.inner_calls == 0 && o2.inner_calls == 0, "[C19.always_fails_at_one] with error rate 1 every call fails after one draw");
+    assert!(rg().pos_log[0] == 0 && rg().pos_log[1] == 1, "[C19.one_stream_for_all_clones] clones draw from one shared, advancing random stream");
+    assert!(rg().seeded == 1 && rg().last_seed == seed && rg().os_seeded == 0, "[C19.seeded_rng_from_seed] the generator is created once, from the configured seed");
+    let mut c2 = mk(1.0, 0.0, Duration::ZERO, Duration::ZERO, Some(seed), script);
+    let _ = drive(&mut c2, 3);
+    assert!(rg().pos_log[2] == 0 && rg().last_seed == seed, "[C19.deterministic_replay] a service built from the same seed replays the stream from its start");
+    std::mem::forget(a);
+    std::mem::forget(b);
+    std::mem::forget(c1);
+    std::mem::forget(c2);
+}
+
 /// Determinism and stream sharing: two requests through two CLONES of one
 /// seeded service consume consecutive positions of ONE random stream; and a
 /// second service built from the same seed and fed the same stream makes the
